@@ -772,7 +772,7 @@ impl<'a> World<'a> {
                 Ok(())
             }
             Step::Cap { file, cap } => {
-                kernel::with(|k| k.caps.push((file.clone(), *cap)));
+                kernel::with(|k| k.set_cap(file, *cap));
                 Ok(())
             }
             Step::Corrupt { m, kind, off, xor } => {
